@@ -371,7 +371,7 @@ def candidates(facts, pinned, allow_pub=(), multi=()):
         if k in pinned or b.path in pinned or k in refs:
             continue
         ss = sites.get(k, [])
-        if k in multi and 2 <= len(ss) <= 3 and all(c != k for c, _b in ss) and len(set(c for c, _b in ss)) == len(ss):
+        if k in multi and 2 <= len(ss) <= 3 and all(c != k for c, _b in ss):
             out[k] = ss          # a small shared delegate: one copy per caller
             continue
         if len(ss) != 1 or ss[0][0] == k:
@@ -407,7 +407,7 @@ def inline_selected(facts, cands):
         else:
             todo_callers = [site_spec[0]]
         for caller_k in todo_callers:
-            _inline_into(nf, owned, k, caller_k, done)
+            _inline_into(nf, owned, k, caller_k, done)      # one call site per entry (a caller with two sites is listed twice)
         # every call site of the helper has received a copy: the function itself is dead in the normal form (leaving it would show
         # rules a second, unused candidate for the role its code now plays inside the caller)
         if nf.mir[k].path in done:
